@@ -1304,7 +1304,13 @@ class H2Stream:
 
         # The above steps are all generators, so we need to concretize the
         # headers now.
-        return list(headers)
+        try:
+            return list(headers)
+        except UnicodeDecodeError as e:
+            raise ProtocolError(
+                "Received header block that cannot be decoded as %s: %s" %
+                (header_encoding, e)
+            )
 
     def _initialize_content_length(self, headers):
         """
